@@ -197,6 +197,19 @@ func (s *c03) nilish() interface{} {
 	}
 }
 
+// nilOrTypedNil: no value at all, as an untyped nil or as a nil pointer of some type (alone or
+// inside a batch: both are null once converted).
+func (s *c03) nilOrTypedNil() interface{} {
+	switch s.c.Rng.Intn(4) {
+	case 0:
+		return nilIntPtr
+	case 1:
+		return (*string)(nil)
+	default:
+		return nil
+	}
+}
+
 func (s *c03) seqInvalid(n int, path []interface{}, isDoc bool) crdt.Op {
 	r := s.c.Rng
 	v := func() interface{} { return s.g.Tag() }
@@ -210,7 +223,7 @@ func (s *c03) seqInvalid(n int, path []interface{}, isDoc bool) crdt.Op {
 		if isDoc {
 			vs[r.Intn(3)] = s.nilish()
 		} else {
-			vs[r.Intn(3)] = nil
+			vs[r.Intn(3)] = s.nilOrTypedNil()
 		}
 		return crdt.Op{Kind: "ins", Path: path, Pos: r.Intn(n + 1), Vals: vs}
 	case 3:
@@ -238,7 +251,7 @@ func (s *c03) seqInvalid(n int, path []interface{}, isDoc bool) crdt.Op {
 			if isDoc {
 				return crdt.Op{Kind: "upd", Path: path, Pos: r.Intn(n), Vals: []interface{}{s.nilish()}}
 			}
-			return crdt.Op{Kind: "upd", Path: path, Pos: r.Intn(n), Vals: []interface{}{nil}}
+			return crdt.Op{Kind: "upd", Path: path, Pos: r.Intn(n), Vals: []interface{}{s.nilOrTypedNil()}}
 		}
 		return crdt.Op{Kind: "upd", Path: path, Pos: 0, Vals: []interface{}{}}
 	}
